@@ -689,7 +689,7 @@ class FileSystemCSVRegistry extends rbql.RBQLTableRegistry {
     };
 
     get_warnings(output_warnings) {
-        if (this.record_iterator && this.has_header) {
+        if (this.record_iterator && this.record_iterator.has_header) { // The iterator knows better: the flag could have been overridden by the `WITH (header)` / `WITH (noheader)` query modifier
             output_warnings.push(`The first record in JOIN file ${path.basename(this.table_path)} was also treated as header (and skipped)`);
         }
     }
